@@ -66,6 +66,19 @@ def translate():
     for n in needles:
         if n not in flat:
             raise TranslateError("VSiteA no longer contains `%s`: the hand-written composition in Model/C15.lean must be revisited" % n)
+    # --- the rotation of the moments (StaticSite::Rotate and the two conversions): Lemmas/C15Field.lean (thetaK, rotQ) mirrors exactly these
+    ss = re.sub(r"\s+", " ", cexpr.strip_comments(open(REPO + "/xtp/src/libxtp/staticsite.cc").read()))
+    rot_needles = [
+        "theta(0, 0) = 0.5 * (-MP(4) + sqr3 * MP(7));", "theta(1, 1) = 0.5 * (-MP(4) - sqr3 * MP(7));", "theta(2, 2) = MP(4);",
+        "theta(0, 1) = theta(1, 0) = 0.5 * sqr3 * MP(8);", "theta(0, 2) = theta(2, 0) = 0.5 * sqr3 * MP(5);", "theta(1, 2) = theta(2, 1) = 0.5 * sqr3 * MP(6);",
+        "quadrupole_polar(0) = quad_cart(2, 2);", "quadrupole_polar(1) = (2. / sqr3) * quad_cart(0, 2);", "quadrupole_polar(2) = (2. / sqr3) * quad_cart(1, 2);",
+        "quadrupole_polar(3) = (1. / sqr3) * (quad_cart(0, 0) - quad_cart(1, 1));", "quadrupole_polar(4) = (2. / sqr3) * quad_cart(0, 1);",
+        "const Eigen::Vector3d temp = R * Q_.segment<3>(1);", "Eigen::Matrix3d rotated = R * cartesianquad * R.transpose();",
+        "Q_.segment<5>(4) = CalculateSphericalMultipole(rotated);",
+    ]
+    for n in rot_needles:
+        if n not in ss:
+            raise TranslateError("staticsite.cc no longer contains `%s`: thetaK / rotQ in Lemmas/C15Field.lean must be revisited" % n)
     # --- symbolic execution of the entry assignments, in source order
     stmts = [s.strip() for s in flat.split(";")]
     Qq, dQ, QQ, env = {}, {}, {}, {}
@@ -138,7 +151,7 @@ def translate():
         K.append("def m%d%d %s : K :=\n  %s\n" % (i, j, argsK, emk.emit(QQ[(i, j)])))
     K.append("end Votca.Gen.EEK")
     write_if_changed(os.path.join(VERIF, "lean", "Votca", "Gen", "EEK.lean"), "\n".join(K) + "\n")
-    return {"entries": 5 + 15 + 15, "structure_statements_checked": len(needles)}
+    return {"entries": 5 + 15 + 15, "structure_statements_checked": len(needles) + len(rot_needles)}
 
 
 if __name__ == "__main__":
